@@ -236,13 +236,17 @@ def run_shard(spec, rec):
             if a is None:
                 return float(q.base) if q.base.ndim == 0 else q.base.copy()
             name, f, off = a
+            if q.as_unit:
+                return UNIT[name]
             mag = q.base / f - off
             mag = float(mag) if q.py else np.array(mag, dtype=float)
             return Q(mag, UNIT[name])
         return walk(call.args, fn), walk(call.kwargs, fn)
 
-    def base_args(call):
+    def base_args(call, assign=None):
         def fn(q):
+            if q.as_unit:
+                return float(assign[id(q)][1])      # "1 unit" in root units
             return float(q.base) if q.py else q.base.copy()
         return walk(call.args, fn), walk(call.kwargs, fn)
 
@@ -549,9 +553,11 @@ def run_shard(spec, rec):
 
         # reference values
         if var.homog:
-            oc, exp = outcome(lambda: invoke(ent, var, *base_args(call), on_numpy=True))
+            oc, exp1 = outcome(lambda: invoke(ent, var, *base_args(call, a1), on_numpy=True))
             scale1 = scale2 = 1.0
-            exp1 = exp2 = exp
+            exp2 = exp1
+            if a2 is not None and not var.meta:
+                _, exp2 = outcome(lambda: invoke(ent, var, *base_args(call, a2), on_numpy=True))
         else:
             oc, exp1 = outcome(lambda: invoke(ent, var, *frame_args(call, a1, frame1), on_numpy=True))
             scale1 = frame1[1] if frame1 else 1.0
@@ -649,7 +655,7 @@ def run_shard(spec, rec):
             if rec._nsample < 40 or g.r.random() < 0.002:
                 rec.sample({"function": ent.name, "variant": label, "call": describe(call, a_),
                             "got": short(got, 200)})
-        if len(results) == 2:
+        if len(results) == 2 and var.meta:
             rec.count("metamorphic_checks")
             if not leaves_equal(results[0][2], results[1][2], tol):
                 rec.violation("reexpression_changes_result",
